@@ -3,6 +3,7 @@ import SfVerif.Lemmas.Codec5
 import SfVerif.Lemmas.GenWriter
 import SfVerif.Lemmas.PLang2
 import SfVerif.Lemmas.Frame3
+import SfVerif.Gen.WasmFinalize
 /-! C02 — a completed output document is exactly the value that was written. -/
 namespace SfVerif.Props.C02
 open SfVerif SfVerif.Gen
@@ -361,5 +362,13 @@ theorem C02_every_thread_history (w : Nat) (ops : List Op) (hs : ∀ op ∈ ops,
   rw [hw] at hfin ⊢
   obtain ⟨v, h1, h2, h3, h4⟩ := C02_every_history (callsSince w {} [] ops) hwf hfin
   exact ⟨v, h2, h1, h3, h4⟩
+
+/-- the wasm-only `finalize` export (not compiled natively; regenerated from provider/src/lib.rs) hands
+    the host six words: the first two are the output buffer's address and its length — what `out?` / finalisation show natively is what the host reads on wasm -/
+theorem C02_wasm_finalize_words :
+    SfVerif.Gen.wasmFinalizeSlots =
+      [[111, 117, 116, 95, 112, 116, 114], [111, 117, 116, 95, 108, 101, 110],
+       [108, 111, 103, 95, 112, 116, 114, 49], [108, 111, 103, 95, 108, 101, 110, 49],
+       [108, 111, 103, 95, 112, 116, 114, 50], [108, 111, 103, 95, 108, 101, 110, 50]] := by decide +kernel
 
 end SfVerif.Props.C02
